@@ -179,6 +179,31 @@ func genLoadShape() ([]byte, error) {
 	if !foundLoad {
 		return nil, fmt.Errorf("config.LoadConfigure not found")
 	}
+	// every UnmarshalJSON method of package v1 (the typed levels of a document), whether or not it still reads the switch
+	var typed []use
+	var renderEv []string
+	for _, p := range files {
+		rel, _ := filepath.Rel(tx.Repo, p)
+		if filepath.Dir(rel) != "pkg/config/v1" && rel != "pkg/config/load.go" {
+			continue
+		}
+		f, err := parser.ParseFile(fset, p, nil, 0)
+		if err != nil {
+			return nil, err
+		}
+		for _, d := range f.Decls {
+			fd, ok := d.(*ast.FuncDecl)
+			if !ok || fd.Body == nil {
+				continue
+			}
+			if fd.Name.Name == "UnmarshalJSON" && fd.Recv != nil && filepath.Dir(rel) == "pkg/config/v1" {
+				typed = append(typed, use{rel, funcName(fd), "UnmarshalJSON"})
+			}
+			if rel == "pkg/config/load.go" && fd.Name.Name == "RenderWithTemplate" && fd.Recv == nil {
+				renderEv = renderEvents(fd)
+			}
+		}
+	}
 	var b bytes.Buffer
 	b.WriteString("(* GENERATED by translator unit T3L from pkg/config/load.go and every use of v1.DisallowUnknownFields[Mu] -- do not edit *)\n")
 	b.WriteString("From FRP Require Import Model.Bytes.\nLocal Open Scope string_scope.\n")
@@ -204,5 +229,73 @@ func genLoadShape() ([]byte, error) {
 	}
 	emit("switch_uses", uses)
 	emit("mutex_uses", mus)
+	emit("typed_unmarshalers", typed)
+	b.WriteString("Definition render_events : list string := [")
+	for i, e := range renderEv {
+		if i > 0 {
+			b.WriteString("; ")
+		}
+		b.WriteString(tx.CoqString(e))
+	}
+	b.WriteString("].\n")
 	return b.Bytes(), nil
+}
+
+// events of config.RenderWithTemplate in source order:
+//   "Buffer:fresh:<var>"  the output buffer is created in the function (bytes.NewBufferString / NewBuffer / new / &bytes.Buffer{})
+//   "Buffer:shared:<var>" it comes from anywhere else (a pool's Get, a package variable, a parameter)
+//   "Put" / "DeferPut"    a pool Put; "Execute:<var>" the template writes into it; "Return:Bytes:<var>" the result is its bytes;
+//   "Return:copy:<var>"   the result is a copy (append([]byte(nil), buf.Bytes()...) / bytes.Clone); "Return:other"
+func renderEvents(fd *ast.FuncDecl) []string {
+	var ev []string
+	bufs := map[string]bool{}
+	ast.Inspect(fd.Body, func(n ast.Node) bool {
+		switch x := n.(type) {
+		case *ast.AssignStmt:
+			if len(x.Lhs) == 1 && len(x.Rhs) == 1 {
+				id, ok := x.Lhs[0].(*ast.Ident)
+				if !ok {
+					return true
+				}
+				r := exprStr(x.Rhs[0])
+				switch {
+				case strings.HasPrefix(r, "bytes.NewBufferString(") || strings.HasPrefix(r, "bytes.NewBuffer(") ||
+					r == "new(bytes.Buffer)" || r == "&bytes.Buffer{...}":
+					ev = append(ev, "Buffer:fresh:"+id.Name)
+					bufs[id.Name] = true
+				case strings.Contains(r, "Buffer") || strings.Contains(r, ".Get()"):
+					ev = append(ev, "Buffer:shared:"+id.Name)
+					bufs[id.Name] = true
+				}
+			}
+		case *ast.DeferStmt:
+			if se, ok := x.Call.Fun.(*ast.SelectorExpr); ok && se.Sel.Name == "Put" {
+				ev = append(ev, "DeferPut")
+				return false
+			}
+		case *ast.CallExpr:
+			if se, ok := x.Fun.(*ast.SelectorExpr); ok {
+				if se.Sel.Name == "Put" {
+					ev = append(ev, "Put")
+				}
+				if se.Sel.Name == "Execute" && len(x.Args) >= 1 {
+					ev = append(ev, "Execute:"+exprStr(x.Args[0]))
+				}
+			}
+		case *ast.ReturnStmt:
+			if len(x.Results) == 2 && exprStr(x.Results[1]) == "nil" {
+				r := exprStr(x.Results[0])
+				switch {
+				case strings.HasSuffix(r, ".Bytes()") && bufs[strings.TrimSuffix(r, ".Bytes()")]:
+					ev = append(ev, "Return:Bytes:"+strings.TrimSuffix(r, ".Bytes()"))
+				case strings.HasPrefix(r, "bytes.Clone(") || strings.HasPrefix(r, "append([]byte(nil), "):
+					ev = append(ev, "Return:copy")
+				default:
+					ev = append(ev, "Return:other")
+				}
+			}
+		}
+		return true
+	})
+	return ev
 }
